@@ -21,3 +21,22 @@ pub unsafe fn raw_generate<T, N: ArrayLength, F: FnMut(usize) -> T>(mut f: F) ->
     }
     Box::from_raw(ptr.cast())
 }
+
+/// Positive fixture for C16.E: a fallible reservation whose failure is turned into an ordinary error value instead of
+/// ending through `handle_alloc_error` - must be reported on every run.
+pub fn swallowed_reservation<T>(n: usize) -> Result<alloc::vec::Vec<T>, ()> {
+    let mut v = alloc::vec::Vec::new();
+    if v.try_reserve_exact(n).is_err() {
+        return Err(());
+    }
+    Ok(v)
+}
+
+/// Negative twin: the failure diverges through the standard path - must NOT be reported.
+pub fn diverging_reservation<T>(n: usize) -> alloc::vec::Vec<T> {
+    let mut v = alloc::vec::Vec::new();
+    if v.try_reserve_exact(n).is_err() {
+        alloc::alloc::handle_alloc_error(Layout::new::<T>());
+    }
+    v
+}
